@@ -180,12 +180,11 @@ func searchIDs(idx bleve.Index, q query.Query, n int, timeout time.Duration) (ma
 		}
 		ch <- res{ids, ""}
 	}()
-	select {
-	case r := <-ch:
-		return r.ids, r.err
-	case <-time.After(timeout):
+	r, ok := waitVal(ch, timeout, 4*timeout)
+	if !ok {
 		return nil, "TIMEOUT"
 	}
+	return r.ids, r.err
 }
 
 func newMemIndex(engine string) bleve.Index {
